@@ -168,6 +168,18 @@ SetFinish(p) ==
     /\ stk' = Pop(p)
     /\ UNCHANGED <<conf, hit, miss>>
 
+(* The call-back PANICS (configurations with onDelete = "fault" only): the    *)
+(* lock is not held during the call-back, so the panic leaves Set with the   *)
+(* lock free and the bookkeeping consistent: the evicted entry is gone, the  *)
+(* new one was never inserted, and every later call works.                   *)
+SetAbort(p) ==
+    /\ stk[p] # << >>
+    /\ conf.onDelete = "fault"
+    /\ LET f == Top(p) IN
+       ev' = [Event("abort", p, "set", f.k, f.v, NoKV, NoKV, "-") EXCEPT !.d = Len(stk[p]) - 1]
+    /\ stk' = Pop(p)
+    /\ UNCHANGED <<conf, items, order, size, hit, miss>>
+
 ----------------------------------------------------------------------------
 Get(p, k) ==
     /\ CanCall(p)
@@ -204,7 +216,7 @@ StatsCall(p) ==
 Next == \E p \in Procs :
           \/ \E k \in Keys, v \in Vals :
                SetTooLarge(p, k, v) \/ SetRefused(p, k, v) \/ SetAtomic(p, k, v) \/ SetEvictFirst(p, k, v)
-          \/ SetEvictAgain(p) \/ SetFinish(p)
+          \/ SetEvictAgain(p) \/ SetFinish(p) \/ SetAbort(p)
           \/ \E k \in Keys : Get(p, k) \/ Del(p, k)
           \/ Clear(p) \/ StatsCall(p)
 
@@ -245,6 +257,7 @@ Explained(k) ==
           /\ \E n \in 1..Len(order) : k \in {order[i] : i \in 1..n}
                  /\ \A i \in 1..n : order[i] \notin DOMAIN items' \/ order[i] = ev'.k
 OnlyExplainedLoss == [][\A k \in Gone : Explained(k)]_vars
+AbortChangesNothing == [][ev'.t = "abort" => UNCHANGED <<items, order, size, hit, miss>>]_vars
 RefusedChangesNothing == [][(ev'.op = "set" /\ ev'.t = "call" /\
                               (ESize(ev'.k, ev'.v) > conf.maxElem \/ (~conf.lru /\ NeedRoom(size, Count, ESize(ev'.k, ev'.v)))))
                              => (UNCHANGED core /\ ev'.r = "F")]_vars
